@@ -5,7 +5,8 @@ R3 = {"name": "hmm_3st_replay", "harness": H, "entry": "r_hmm_3st", "native_repl
       "native_sources": ["src/ckd_alloc.c", "src/err.c", "src/listelem_alloc.c", "src/glist.c"], "allow_no_body": NB, "unwind": 14}
 GROUPS = [
     dict(name="hmm_vit_eval_3st_lr", harness=H, enforce="hmm_vit_eval_3st_lr", min_postconditions=15, replay=R3, allow_no_body=NB),
-    dict(name="hmm_vit_eval", tiers=("probe",), harness=H, enforce="hmm_vit_eval", replace=["hmm_vit_eval_3st_lr", "hmm_vit_eval_3st_lr_mpx", "hmm_vit_eval_5st_lr", "hmm_vit_eval_5st_lr_mpx", "hmm_vit_eval_anytopo"], min_postconditions=6, timeout=200, allow_no_body=["*"]),
+    dict(name="hmm_vit_eval_dispatch", harness=H, entry="h_hmm_vit_eval", enforce="hmm_vit_eval", replace=["hmm_vit_eval_3st_lr", "hmm_vit_eval_3st_lr_mpx", "hmm_vit_eval_5st_lr", "hmm_vit_eval_5st_lr_mpx", "hmm_vit_eval_anytopo"], min_postconditions=6, timeout=150, allow_no_body=["*"]),
+    dict(name="hmm_vit_eval_dispatch_mpx", harness=H, entry="h_hmm_vit_eval", defines=["VERIF_HVE_MPX"], enforce="hmm_vit_eval", replace=["hmm_vit_eval_3st_lr", "hmm_vit_eval_3st_lr_mpx", "hmm_vit_eval_5st_lr", "hmm_vit_eval_5st_lr_mpx", "hmm_vit_eval_anytopo"], min_postconditions=6, timeout=150, allow_no_body=["*"]),
     dict(name="hmm_enter", harness=H, enforce="hmm_enter", min_postconditions=1, allow_no_body=NB),
     dict(name="hmm_vit_eval_3st_lr_mpx", harness=H, enforce="hmm_vit_eval_3st_lr_mpx", min_postconditions=12, allow_no_body=NB),
     dict(name="history_entry_add", harness="harness/C02_history.c", entry="r_history_entry_add", allow_no_body=["*"], unwind=6, extra_sources=["@src/glist.c"],
@@ -28,7 +29,7 @@ NATIVE = [
 ]
 ASSUMPTIONS = [
     "WF_HMM precondition: state scores are WORST_SCORE or in [WORST_SCORE + 2^20, 0], activity is prefix-closed, senone scores are >= 0 (negated logs), exit inactive while state 1 is",
-    "3-state topologies only (the shipped models); hmm_vit_eval_5st_lr(_mpx) and hmm_vit_eval_anytopo are not under contract",
+    "3-state topologies only (the shipped models); hmm_vit_eval_5st_lr(_mpx) and hmm_vit_eval_anytopo are not under contract: in the dispatcher groups they carry the unsatisfiable precondition requires(0), so reaching them would be a failed obligation",
     "a skip arc of the 3-state code exists iff its stored cost is < 255 (TMAT_WORST_SCORE)",
 ]
 HAND_LEMMAS = ["global optimality over all alignments is the standard Viterbi induction over frames from the local max-plus step; not machine checked"]
